@@ -183,6 +183,10 @@ type session struct {
 }
 
 type sessDiv struct {
+	// Hard: something happened that must never happen (a sink was reached, a peer counted as verified). No
+	// scheduling delay can cause that, so it is reported without the patient re-run that "something
+	// expected did not happen yet" gets.
+	Hard bool   `json:"hard"`
 	Prop string `json:"prop"`
 	Beh  int    `json:"beh"`
 	Step int    `json:"step"`
@@ -498,10 +502,12 @@ func normOut(xs []string) []string {
 // run plays the behaviour; returns the divergences of the first diverging step.
 func (s *session) run(behIdx int) []sessDiv {
 	var divs []sessDiv
+	hard := false
 	fail := func(step int, prop, msg string) {
 		for _, p := range strings.Split(prop, "+") {
-			divs = append(divs, sessDiv{Prop: p, Beh: behIdx, Step: step, Msg: msg, Sig: p + " " + denum(msg)})
+			divs = append(divs, sessDiv{Prop: p, Beh: behIdx, Step: step, Msg: msg, Sig: p + " " + denum(msg), Hard: hard})
 		}
+		hard = false
 	}
 	// the node starts by sending version and one ping
 	init := map[string]int{}
@@ -545,10 +551,18 @@ func (s *session) run(behIdx int) []sessDiv {
 			s.trace = append(s.trace, fmt.Sprintf("%s(%d bytes)", st.Msg, len(data)))
 			// half of the messages travel together with the barrier ping in one write (two messages in one
 			// segment): a handler that reads ahead of its own payload swallows the ping
-			if st.Msg != "ping" && s.rng.Intn(2) == 0 {
+			verifyingHeaders := s.beh.VerifyOnly && st.St.Closed && !st.St.Ready && strings.HasPrefix(st.Msg, "hdr")
+			if st.Msg != "ping" && (s.rng.Intn(2) == 0 || verifyingHeaders) {
 				coalesced = true
 				s.trace[len(s.trace)-1] += "+ping"
-				data = append(append([]byte{}, data...), wireMessage(wire.NewMsgPing(bn))...)
+				extra := []byte{}
+				if verifyingHeaders {
+					// a verify-only node disconnects as soon as verification succeeds: an addr message that arrives in
+					// the same segment as the verifying headers must not reach the address book any more
+					extra = s.build("addr")
+					s.trace[len(s.trace)-1] += "+addr"
+				}
+				data = append(append(append([]byte{}, data...), extra...), wireMessage(wire.NewMsgPing(bn))...)
 			}
 			sent = s.write(data, s.d(2*time.Second))
 		}
@@ -638,6 +652,13 @@ func (s *session) run(behIdx int) []sessDiv {
 			if !st.St.Ready && !wasReady {
 				p = "C13"
 			}
+			for k := range gotSinks {
+				// these two are called by the handler itself, before the barrier ping is answered; the tx
+				// processor and the block handler run on their own goroutines and can be late
+				if !wantSinks[k] && (k == "ProcessHeader" || k == "peers.Add") {
+					hard = true
+				}
+			}
 			fail(step, p, fmt.Sprintf("after %s: sinks reached %v, spec says %v", st.Msg, keys(gotSinks), keys(wantSinks)))
 		}
 		if s.node.Verified() != st.St.Verified {
@@ -645,6 +666,7 @@ func (s *session) run(behIdx int) []sessDiv {
 			if isHdr {
 				p = "C03+C13"
 			}
+			hard = s.node.Verified() && !st.St.Verified
 			fail(step, p, fmt.Sprintf("after %s: verified=%v, spec says %v", st.Msg, s.node.Verified(), st.St.Verified))
 		}
 		if st.St.Closed && eof {
@@ -744,7 +766,11 @@ func sessMain(args []string) int {
 				s := newSession(&beh, *seed*1000003+int64(j.idx), *big)
 				ds := s.run(j.idx)
 				s.close()
-				if len(ds) > 0 {
+				isHard := false
+				for _, d := range ds {
+					isHard = isHard || d.Hard
+				}
+				if len(ds) > 0 && !isHard {
 					// a scheduling hiccup must not become an alarm: the session is run again at the end,
 					// alone and with eight times longer waits; only a divergence that repeats is reported
 					mu.Lock()
@@ -775,6 +801,12 @@ func sessMain(args []string) int {
 	close(jobs)
 	wg.Wait()
 	reran := len(again)
+	notRerun := 0
+	if len(again) > 12 {
+		// a real defect makes many sessions diverge: twelve patient re-runs decide, the others are only counted
+		notRerun = len(again) - 12
+		again = again[:12]
+	}
 	for _, j := range again {
 		var beh sessBeh
 		if json.Unmarshal([]byte(j.line), &beh) != nil {
@@ -795,7 +827,7 @@ func sessMain(args []string) int {
 		fmt.Fprintln(os.Stderr, err)
 		return 2
 	}
-	json.NewEncoder(os.Stdout).Encode(map[string]interface{}{"sessions": n, "steps": steps, "classes": classes, "rerun_patiently": reran,
+	json.NewEncoder(os.Stdout).Encode(map[string]interface{}{"sessions": n, "steps": steps, "classes": classes, "rerun_patiently": reran, "diverged_but_not_rerun": notRerun,
 		"signatures": sigs, "divergences": divs, "samples": sample})
 	return 0
 }
